@@ -13,7 +13,7 @@ M3  accept/reject results and lookup replies are validated by TLC against PDRout
 import json, os, sys, re, subprocess
 sys.path.insert(0, os.path.join(os.path.dirname(os.path.abspath(__file__)), "..", "lib"))
 from vlib import *
-from vpar import validate_traces_parallel
+from vpar import validate_traces_parallel, fast_tmp
 
 INF = 100
 # two order-preserving maps from model positions 0..7 to byte strings (0 = empty key)
@@ -83,11 +83,12 @@ def run_driver(ctx, scheds):
         if not part:
             continue
         d = ctx.mkdtemp("drv")
+        work = fast_tmp(ctx, "work")
         inp, outp = os.path.join(d, "in.ndjson"), os.path.join(d, "out.ndjson")
         with open(inp, "w") as fh:
             for s in part:
                 fh.write(json.dumps(s) + "\n")
-        p = subprocess.Popen([binp, "-in", inp, "-out", outp, "-dir", d], stdout=subprocess.PIPE, stderr=subprocess.STDOUT, text=True)
+        p = subprocess.Popen([binp, "-in", inp, "-out", outp, "-dir", work], stdout=subprocess.PIPE, stderr=subprocess.STDOUT, text=True)
         procs.append((p, outp))
     traces = {}
     for p, outp in procs:
